@@ -261,6 +261,25 @@ def f(x: A): pass
 f({"zeta": 1, "eta": 2, "theta": 3})
 f({"alpha": 1})
 '''),
+    ('stress:incomplete-match-enum', '''
+import enum
+class Color(enum.Enum):
+  ALPHA = 1
+  BETA = 2
+  GAMMA = 3
+  DELTA = 4
+  EPSILON = 5
+def f(c: Color):
+  match c:
+    case Color.ALPHA:
+      return 1
+def g(c: Color):
+  match c:
+    case Color.ALPHA | Color.BETA:
+      return 1
+    case Color.GAMMA:
+      return 2
+'''),
     ('stress:multiple-inheritance-attrs', '''
 class A:
   x = 1
